@@ -351,9 +351,12 @@ def load_known():
         return json.load(f).get("findings", [])
 
 
-def known_match(prop, sig, known):
+def known_match(prop, sig, known, msg=""):
     for k in known:
         if k.get("property") != prop or k.get("status") != "known":
+            continue
+        # an entry may additionally pin the witness message (for catch-all signatures)
+        if k.get("msg_regex") and not re.search(k["msg_regex"], msg or ""):
             continue
         if k.get("sig") == sig:
             return k
@@ -526,7 +529,7 @@ def finish(check, tier, seed, results, t0):
     new_sigs = {}
     known_hits = {}
     for sig, msg, replay, leg in violations:
-        k = known_match(prop, sig, known)
+        k = known_match(prop, sig, known, msg)
         if k is not None:
             known_hits.setdefault(sig, (k, msg))
         else:
@@ -672,9 +675,9 @@ def run_replay(check, path):
             return 2
         rep = res["report"]
     known = load_known()
-    bad = [v for v in rep.get("violations", []) if known_match(prop, v["sig"], known) is None]
+    bad = [v for v in rep.get("violations", []) if known_match(prop, v["sig"], known, v.get("msg", "")) is None]
     for v in rep.get("violations", []):
-        if known_match(prop, v["sig"], known) is not None:
+        if known_match(prop, v["sig"], known, v.get("msg", "")) is not None:
             print(f"KNOWN-FINDING: property={prop} [sig={v['sig']}] {v['msg'][:200]}")
     if bad:
         print(f"VIOLATION property={prop} replay={path}")
